@@ -1,0 +1,21 @@
+//go:build verif
+
+package pilosa
+
+import "time"
+
+// Access wrappers for the key-translation and attribute checks (C24, C25).
+// No behaviour, only access.
+
+// VerifTranslateSize returns the number of bytes of the translate log the store
+// has written and applied (taken under the store's read lock).
+func VerifTranslateSize(s *TranslateFile) int64 { return s.size() }
+
+// VerifTranslateSetRetryInterval sets the delay after which a replica
+// reconnects to its primary when the stream ends (before Open).
+func VerifTranslateSetRetryInterval(s *TranslateFile, d time.Duration) {
+	s.replicationRetryInterval = d
+}
+
+// VerifAttrBlocksDiff is attrBlocks(a).Diff(b).
+func VerifAttrBlocksDiff(a, b []AttrBlock) []uint64 { return attrBlocks(a).Diff(b) }
